@@ -268,6 +268,12 @@ def sweep_job(args) -> dict:
             if len(bad) < 5 or (len(bad) < 40 and clause not in {b["clause"] for b in bad}):
                 bad.append({"w": w, "clause": clause, "want": want, "got": got})
             raised[clause] = raised.get(clause, 0) + 1
+            if clause == "C11.UndecodableIsNone" and got["k"] != "none":
+                # a value reported where the documented reading is "no value" is also not the documented reading of the
+                # sensor's registers (C12), not only a missing None (C11)
+                if "C12.Value" not in {b["clause"] for b in bad}:
+                    bad.append({"w": w, "clause": "C12.Value", "want": want, "got": got})
+                raised["C12.Value"] = raised.get("C12.Value", 0) + 1
     return {"fam": fam, "tab": tabname, "id": e["id"], "ty": e["ty"], "pos": pos, "n": n, "bad": bad, "counts": raised,
             "base": list(base)}
 
